@@ -178,9 +178,9 @@ def run(M, rec, tier, seed, k, n):
             W.closed_loop(M, rec, rng, 4, 150, on_step=on_step)
             W.small_valid_steps(M, rec, rng, 2, before_case=before, seed=seed)
         else:
-            W.numpy_steps(M, rec, rng, 3500, draws=3, before_case=before)
+            W.numpy_steps(M, rec, rng, 6000, draws=3, before_case=before)
             W.symbolic_steps(M, rec, rng, symvals, 250, points=3, before_case=before)
-            compiled_conservation(M, rec, rng, 300)
+            compiled_conservation(M, rec, rng, 500)
             W.closed_loop(M, rec, rng, 6, 300, on_step=on_step)
             W.small_valid_steps(M, rec, rng, 3, k, n, before_case=before, seed=seed)
     finally:
